@@ -3,6 +3,7 @@ import json, os, re
 import common
 
 LEAN_MODULES = ['OpusProps.C20']
+EXTENSIONS = ['C20onset']   # extension slices merged into this property's check (tools/EXT_BRIEF.md)
 GEN = ['DtxConsts', 'VadConsts']
 SOURCES = ['src/opus_encoder.c', 'src/opus_private.h', 'src/analysis.c', 'src/analysis.h', 'silk/enc_API.c',
            'silk/float/encode_frame_FLP.c', 'silk/fixed/encode_frame_FIX.c', 'silk/define.h', 'silk/tuning_parameters.h',
